@@ -19,7 +19,8 @@ RULE = ('Hypothesis cases: receiver / refund / outsider seeds, preimages of leng
         'to the typed stack it leaves and the acceptance condition of the statement is evaluated per lock kind with the '
         'RFC 8032 reference. non-trivial = a boundary timestamp, a cross pairing, a wrong key / preimage, or a tweak; '
         'distinct by case parameters.'
-        ' Tweak scalars include raw and top-bit-set 32-byte strings (lock point = derive_point as documented); digest sizes up to 255; an exception of a builder is a violation.')
+        ' Tweak scalars include raw and top-bit-set 32-byte strings (lock point = derive_point as documented); digest sizes up to 255; an exception of a builder is a violation.'
+        ' Accepted witnesses are replayed over other sigfield contents (the reference decides).')
 ASSUMPTIONS = ['clock pinned at build time and at verification time through tools.time / functions.time',
                'the tweak point of a scalar is derive_point(t) as documented: libsodium ignores bit 255 of the scalar there',
                'hash commitments are collision-free except where the predicate evaluates the truncated digest itself']
